@@ -146,6 +146,42 @@ def git_state() -> str:
         return "unknown"
 
 
+class ImplementationHang(Exception):
+    """one call into artlib has been running longer than the watchdog interval"""
+
+
+def _watchdog_mark(*_a):  # sentinel stored in frame.f_trace; never called (no sys.settrace)
+    return None
+
+
+def install_watchdog(seconds: float):
+    """A changed implementation can loop forever (e.g. a search that never resets a category).  Every `seconds` the
+    SIGALRM handler looks for the outermost stack frame that executes code of $VERIF_REPO/artlib (= the call by which
+    the harness entered the implementation); it marks that frame, and when it finds the mark already there — the very
+    same call was running one interval ago — it raises ImplementationHang inside it.  The checks see an exception
+    raised by the implementation and report it (never exit 2 / never hang).  On the unchanged tree no single call
+    takes anywhere near the interval."""
+    import signal
+    root = str(Path(REPO).resolve()) + "/artlib"
+
+    def handler(_sig, frame):
+        entry, f = None, frame
+        while f is not None:
+            if f.f_code.co_filename.startswith(root):
+                entry = f
+            f = f.f_back
+        if entry is None:
+            return
+        if entry.f_trace is _watchdog_mark:
+            entry.f_trace = None
+            raise ImplementationHang(f"{entry.f_code.co_name} ({Path(entry.f_code.co_filename).name}) has been running "
+                                     f"for more than {seconds:g} s; the unchanged implementation needs milliseconds")
+        entry.f_trace = _watchdog_mark
+
+    signal.signal(signal.SIGALRM, handler)
+    signal.setitimer(signal.ITIMER_REAL, seconds, seconds)
+
+
 def main(argv=None) -> int:
     import argparse
     ap = argparse.ArgumentParser()
@@ -174,6 +210,7 @@ def main(argv=None) -> int:
         ctx.issue("audit", "forbidden-token", f)
 
     mod = importlib.import_module(f"artv.checks.{prop}")
+    install_watchdog(float(os.environ.get("VERIF_CALL_TIMEOUT", "60" if ctx.thorough else "30")))
     if build_ok and hasattr(mod, "prepare") and not a.replay:
         try:
             mod.prepare(ctx)
